@@ -346,11 +346,61 @@ def rule_r5(chk):
            "loop unpacks ((column, date), equation) from iterator_creator(columns_dates, equations)", m.loc(sv))
 
 
+def rule_r7(chk):
+    chk.rule("C17-R7", "exogenized points are recognised by None-ness, not truthiness: _detect_exogenized returns an implied value "
+             "or None; the simulator tests its result only with `is None` / `is not None` (an implied level of exactly 0.0 is a "
+             "legitimate exogenized value) and dispatches None -> equation.simulate, value -> equation.exogenize", floor=3)
+    m = chk.repo.mod("irispie.sequentials._simulate")
+    d = m.func("_detect_exogenized")
+    chk.saw(m, "_detect_exogenized")
+    rets = [r.value for r in walk_no_nested(d) if isinstance(r, ast.Return)]
+    kinds = sorted({"None" if (isinstance(r, ast.Constant) and r.value is None) else "value" for r in rets})
+    chk.ob("C17-R7", "sequentials._simulate._detect_exogenized[returns]", kinds == ["None", "value"], f"return kinds: {kinds}", m.loc(d))
+    user = None
+    for q, f in m.functions():
+        for n in walk_no_nested(f):
+            if isinstance(n, ast.Assign) and isinstance(n.value, ast.Call) and dotted(n.value.func) in ("detect_exogenized", "_detect_exogenized") \
+                    and isinstance(n.targets[0], ast.Name):
+                user = (q, f, n.targets[0].id)
+    if user is None:
+        raise AnalysisError("anchor vanished: call of detect_exogenized")
+    q, f, v = user
+    chk.saw(m, q)
+    truthy = []
+    for n in ast.walk(f):
+        tests = []
+        if isinstance(n, (ast.If, ast.IfExp, ast.While)):
+            tests.append(n.test)
+        if isinstance(n, ast.BoolOp):
+            tests.extend(n.values)
+        if isinstance(n, ast.UnaryOp) and isinstance(n.op, ast.Not):
+            tests.append(n.operand)
+        for t in tests:
+            if isinstance(t, ast.Name) and t.id == v:
+                truthy.append(t)
+    chk.ob("C17-R7", f"sequentials._simulate.{q}[no truthiness test]", not truthy,
+           f"{v} is tested only for None-ness" if not truthy else
+           f"line {truthy[0].lineno}: `{v}` is used as a truth value; an implied value of 0.0 is then treated as 'not exogenized'", m.loc(truthy[0]) if truthy else m.loc(f))
+    disp = [n for n in ast.walk(f) if isinstance(n, ast.IfExp) and {"equation.simulate", "equation.exogenize"} == {unparse(n.body), unparse(n.orelse)}]
+    if len(disp) != 1:
+        chk.undecided("C17-R7", f"sequentials._simulate.{q}[dispatch]", "simulate/exogenize dispatch not recognised", m.loc(f))
+    else:
+        t = disp[0].test
+        none_branch = None
+        if isinstance(t, ast.Compare) and len(t.ops) == 1 and unparse(t.left) == v and isinstance(t.comparators[0], ast.Constant) and t.comparators[0].value is None:
+            none_branch = disp[0].body if isinstance(t.ops[0], ast.Is) else disp[0].orelse if isinstance(t.ops[0], ast.IsNot) else None
+        ok = (unparse(none_branch) == "equation.simulate") if none_branch is not None else (False if isinstance(t, ast.Name) else None)
+        chk.ob("C17-R7", f"sequentials._simulate.{q}[dispatch]", ok, f"{unparse(disp[0])[:100]}", m.loc(disp[0]))
+
+
 def run(chk):
     classes = rule_r1_r2(chk)
     rule_r3(chk, classes)
     rule_r4(chk)
     rule_r5(chk)
+    rule_r7(chk)
+    from .. import variants
+    variants.apply(chk, "C17-R6", [("irispie.sequentials._simulate", "simulate")])
     chk.assumptions = [
         "positive real domain for log/roc/pct transforms",
         "xtring_from_human maps names to data cells one-to-one (checked under C04)",
